@@ -166,6 +166,13 @@ def produced_by_log(w):
     gpos = {}     # gid -> index of next act
     alive = {}
     unsupported = set()
+    user_gid = {}
+    for g, kind in gens.items():
+        if kind[0] == 'user':
+            if (kind[1], kind[2]) in user_gid:
+                user_gid[(kind[1], kind[2])] = None     # the same handler ran twice for one event object: not attributed
+            else:
+                user_gid[(kind[1], kind[2])] = g
 
     def add(e, item, i):
         prod.setdefault(e, []).append(item)
@@ -190,7 +197,12 @@ def produced_by_log(w):
                 return
             if a[0] == 'ret':
                 break
-            if a[0] in ('call', 'wait', 'sysExit', 'kbdInt', 'rmH', 'stopMgr'):
+            if a[0] in ('call', 'wait'):
+                # the step ends at `yield call(...)` / `yield wait(...)` and produces nothing; the generator goes on when the
+                # log shows its resumption (R entry) - "as if the handler had run synchronously" (C06)
+                gpos[gid] = k
+                return
+            if a[0] in ('sysExit', 'kbdInt', 'rmH', 'stopMgr'):
                 unsupported.add(e)
                 gpos[gid] = k
                 return
@@ -224,8 +236,28 @@ def produced_by_log(w):
                 alive.setdefault(gid, True)
                 if alive[gid]:
                     advance(gid, kind[1], kind[2], i)
+            elif kind[0] == 'wait':
+                pass        # helper task of call()/wait(): the caller's continuation shows up as an R or T entry
             else:
                 unsupported.add(ev)
+        elif e[0] == 'R':
+            ev, h = int(e[1]), int(e[2])
+            gid = user_gid.get((ev, h))
+            if gid is None:
+                unsupported.add(ev)
+            elif alive.get(gid, True):
+                alive.setdefault(gid, True)
+                advance(gid, ev, h, i)
+        elif e[0] == 'T':
+            ev, h = int(e[1]), int(e[2])
+            gid = user_gid.get((ev, h))
+            if gid is None or e[3] == '1':
+                # TimeoutError caught by the handler: what it yields next travels through a one-shot helper generator
+                unsupported.add(ev)
+            else:
+                alive[gid] = False
+                raises[ev] = raises.get(ev, 0) + 1
+                add(ev, 'E', i)
     unfinished = {}
     for gid, kind in gens.items():
         if kind[0] == 'user' and alive.get(gid, True):
